@@ -103,6 +103,17 @@ def decode_concat(d):
     return {"concat": [a, b], "op": d.choice(["add", "iadd"])}
 
 
+def decode_moveadd(d):
+    """a single Move segment + path data; the move's coordinates carry up to seventeen significant digits"""
+    def long_number():
+        v = gen.loguniform(d, -2.0, 5.0) * (1.0 + d.int(1, 9) * 1.0123456789e-9)
+        return repr(v) if d.chance(3, 4) else repr(float("%.6g" % v))
+    first = "%s %s,%s" % (d.choice("Mm"), long_number(), long_number())
+    cmds = [gen.path_command(d, letters="lLhHvVcCsSqQtTaAzZ") for _ in range(d.int(1, 3))]
+    second = " ".join(ch + body for ch, body in cmds)
+    return {"pieces": [first, second], "ops": ["moveadd"]}
+
+
 def parts(tier):
     n = 2500 if tier == "quick" else 20000
     m = 2500 if tier == "quick" else 8000
@@ -110,6 +121,7 @@ def parts(tier):
         core.Part("pairs", "exhaustive", pair_cases),
         core.Part("splits", "sampled", lambda: gen.cases(decode_split, 512), budget=n),
         core.Part("concat", "sampled", lambda: gen.cases(decode_concat, 256), budget=m, check=check_concat),
+        core.Part("moveadd", "sampled", lambda: gen.cases(decode_moveadd, 256), budget=n // 3),
     ]
 
 
